@@ -118,7 +118,7 @@ func (r *ChunkReader) ReadChunk(size uint16) (*KV, error) {
 			// A writer which immediately sends EOF instead of a key indicates
 			// that the writer wants to force a message break, so no combining
 			// data chunks up to the MTU
-			if errors.Is(err, io.EOF) {
+			if err == io.EOF { //nolint:errorlint // only the bare error is the marker; a writer's own error may wrap io.EOF
 				err = ErrSizeTooSmall
 			}
 
